@@ -55,11 +55,29 @@ def check_reader_agreement(chk) -> None:
         m2 = [n for n in ast.walk(b.node) if isinstance(n, ast.Assign) and norm(n.targets[0]) == "current_model" and isinstance(n.value, ast.Call)]
         ok = any("line[10:14]" in norm(n.value) for n in m2)
     chk.expect(ok, "pdb-slices-v2", b.where, "parser_v2: MODEL serial from columns 11-14", "parser_v2 does not read the MODEL serial from line[10:14]", K(b, "column:model"))
-    # record filter of parser_v2: which classes of line yield an atom record - the loop body evaluated on one representative per class
-    _record_filter(chk, b, sp)
+    # record filter of parser_v2: which records of a document become rows - parse_pdb_atoms interpreted as a whole; when that is not
+    # possible the loop body is evaluated line by line on one representative per class
+    from checks import c08e
+
+    whole = False
+    try:
+        whole = c08e.check_v2_reader_eval(chk)
+    except AnalysisError:
+        raise
+    except Exception as ex:
+        chk.ok("pdb-reader-v2-eval", b.where, f"evaluation of parse_pdb_atoms failed internally ({type(ex).__name__}: {str(ex)[:60]}): the line loop is evaluated line by line")
+    if not whole:
+        _record_filter(chk, b, sp)
     # null markers in the table reader
     c = repo.func(P2, "parse_cif_atoms")
     chk.note_function(c)
+    try:
+        if c08e.check_cif_atoms_eval(chk):
+            return
+    except AnalysisError:
+        raise
+    except Exception as ex:
+        chk.ok("cif-atoms-eval", c.where, f"evaluation of parse_cif_atoms failed internally ({type(ex).__name__}: {str(ex)[:60]}): the pinned-form rule decides")
     nm = [n for n in ast.walk(c.node) if isinstance(n, ast.Compare) and any(isinstance(x, ast.Constant) and x.value in ("?", ".") for x in ast.walk(n))]
     ok = len(nm) == 1 and {x.value for x in ast.walk(nm[0]) if isinstance(x, ast.Constant)} == {"?", "."}
     chk.expect(ok, "null-markers-v2", c.where, "parser_v2 maps both mmCIF null markers to None", "parser_v2 does not treat both '?' and '.' as missing", K(c, "nulls"))
@@ -144,6 +162,17 @@ def _record_filter(chk, b, sp) -> None:
 
 def check_item_preference(chk) -> None:
     repo = chk.repo
+    from checks import c15e
+
+    acc = False
+    try:
+        acc = c15e.check_accessors_eval(chk)  # both residue models on interpreted instances; the pinned forms below are the fallback
+    except AnalysisError:
+        raise
+    except Exception as ex:
+        chk.ok("accessors-eval", "-", f"evaluation of the residue accessors failed internally ({type(ex).__name__}: {str(ex)[:60]}): the pinned-form rules decide")
+    if acc:
+        chk = _Decided(chk, drop={"prefer-auth", "pdb-field", "icode-field", "atom-by-name", "coordinates-items"})
     # residue-level model: Residue.chain/number prefer auth
     for prop, fld in (("chain", "chain"), ("number", "number"), ("name", "name")):
         fi = repo.func("common", f"Residue.{prop}")
@@ -264,27 +293,72 @@ def _group_columns(chk, rs) -> None:
         chk.ok("group-columns", rs.where, "groups with a missing insertion code are kept (dropna=False)")
 
 
+class _Decided:
+    """The check while a pinned form is read after the same behaviour was decided by evaluation: the rules in `drop` are not recorded,
+    'idiom not found' of the rules in `quiet` is dropped (their folded facts are still compared)."""
+
+    def __init__(self, chk, drop=(), quiet=()):
+        self._chk, self._drop, self._quiet = chk, set(drop), set(quiet)
+        self.repo, self.robust = chk.repo, chk.robust
+
+    def __getattr__(self, name):
+        return getattr(self._chk, name)
+
+    def ok(self, rule, *a, **k):
+        if rule not in self._drop:
+            self._chk.ok(rule, *a, **k)
+
+    def error(self, rule, *a, **k):
+        if rule not in self._drop and rule not in self._quiet:
+            self._chk.error(rule, *a, **k)
+
+    def violation(self, rule, *a, **k):
+        if rule not in self._drop:
+            self._chk.violation(rule, *a, **k)
+
+    def expect(self, cond, rule, *a, **k):
+        if rule not in self._drop:
+            return self._chk.expect(cond, rule, *a, **k)
+        return bool(cond)
+
+
 def check_connectivity(chk) -> None:
     repo = chk.repo
     c = spec("constants.json")["C15"]
     sites = []
+    from checks import c15e
+
+    def _ev(f, *a):
+        try:
+            return bool(f(chk, *a))
+        except AnalysisError:
+            raise
+        except Exception as ex:
+            chk.ok("connect-eval", "-", f"{f.__name__} failed internally ({type(ex).__name__}: {str(ex)[:60]}): the pinned-form rules decide")
+            return False
+
+    evaluated = {}
     for m, q in ((T1, "Residue3D.is_connected"), (T2, "Residue.is_connected")):
         fi = repo.func(m, q)
         chk.note_function(fi)
+        # the link test evaluated on residue pairs (atoms present / absent, distances around the threshold, direction); the reading of
+        # the pinned form that follows still folds the threshold (a robust fact) and is otherwise the fallback
+        evaluated[(m, q)] = _ev(c15e.check_link_eval, m, q)
+        ck = _Decided(chk, drop={"connect-atoms", "connect-distance", "connect-distance-form"}, quiet={"connect-threshold"}) if evaluated[(m, q)] else chk
         o3 = astq.first_assign(fi.node, "o3p")
         p = astq.first_assign(fi.node, "p")
         ok = o3 is not None and norm(o3) == "self.find_atom(\"O3'\")" and p is not None and norm(p) == "next_residue_candidate.find_atom('P')"
-        chk.expect(ok, "connect-atoms", fi.where, "link = O3' of this residue to P of the next", "connectivity is not measured from self O3' to the candidate's P", K(fi, "atoms"))
+        ck.expect(ok, "connect-atoms", fi.where, "link = O3' of this residue to P of the next", "connectivity is not measured from self O3' to the candidate's P", K(fi, "atoms"))
         from sa.defuse import Inliner
 
         inl = Inliner(fi.node)
         rets = [r for r in ast.walk(fi.node) if isinstance(r, ast.Return) and r.value is not None and isinstance(inl.inline(r.value, r, stop=("o3p", "p")), ast.Compare)]
         if len(rets) != 1:
-            chk.error("connect-threshold", fi.where, "distance comparison not found")
+            ck.error("connect-threshold", fi.where, "distance comparison not found")
             continue
         cmp_ = inl.inline(rets[0].value, rets[0], stop=("o3p", "p"))
         if len(cmp_.ops) != 1:
-            chk.error("connect-threshold", fi.site(rets[0]), "chained comparison")
+            ck.error("connect-threshold", fi.site(rets[0]), "chained comparison")
             continue
         left, right, op = cmp_.left, cmp_.comparators[0], type(cmp_.ops[0]).__name__
         thr = Folder(repo, m).try_fold(right)
@@ -293,28 +367,30 @@ def check_connectivity(chk) -> None:
             thr = Folder(repo, m).try_fold(right)
             op = {"Lt": "Gt", "Gt": "Lt", "LtE": "GtE", "GtE": "LtE"}.get(op, op)
         if thr is None:
-            chk.error("connect-threshold", fi.site(rets[0]), f"threshold `{norm(right)}` does not fold")
+            ck.error("connect-threshold", fi.site(rets[0]), f"threshold `{norm(right)}` does not fold")
             continue
         sites.append((fi, op, thr, norm(left)))
-        chk.expect(abs(thr - c["connect_threshold"]) < 1e-9, "connect-threshold", fi.site(rets[0]), f"threshold folds to {thr}", f"connectivity threshold folds to {thr}, the statement says {c['connect_threshold']} A", K(fi, "threshold"), expected=c["connect_threshold"], found=thr)
+        ck.expect(abs(thr - c["connect_threshold"]) < 1e-9, "connect-threshold", fi.site(rets[0]), f"threshold folds to {thr}", f"connectivity threshold folds to {thr}, the statement says {c['connect_threshold']} A", K(fi, "threshold"), expected=c["connect_threshold"], found=thr)
         np_ = "numpy" if m == T1 else "np"
         dist_ok = norm(left) in (f"{np_}.linalg.norm(o3p.coordinates - p.coordinates).item()", f"{np_}.linalg.norm(p.coordinates - o3p.coordinates).item()", f"{np_}.linalg.norm(o3p.coordinates - p.coordinates)", f"{np_}.linalg.norm(p.coordinates - o3p.coordinates)")
         if dist_ok:
-            chk.ok("connect-distance", fi.site(rets[0]), "distance = |O3' - P|")
+            ck.ok("connect-distance", fi.site(rets[0]), "distance = |O3' - P|")
         else:
-            chk.violation("connect-distance-form", fi.site(rets[0]), f"the compared quantity `{norm(left)[:80]}` is not the O3'-P distance", K(fi, "distance"))
+            ck.violation("connect-distance-form", fi.site(rets[0]), f"the compared quantity `{norm(left)[:80]}` is not the O3'-P distance", K(fi, "distance"))
         # the comparison is reached only with both atoms present
         from sa.flow import FlowMap, facts
 
         fmx = FlowMap(fi.node)
         fs = facts(fmx.of(rets[0]).guards)
         have = {nm: any((norm(g.test) == f"{nm} is not None" and g.polarity) or (norm(g.test) == f"{nm} is None" and not g.polarity) for g in fs) for nm in ("o3p", "p")}
-        chk.expect(all(have.values()), "connect-atoms", fi.site(rets[0]), "the distance is taken only when both atoms exist; otherwise not connected", f"the distance is computed without establishing that {[k for k, v in have.items() if not v]} exist", K(fi, "atoms-present"))
+        ck.expect(all(have.values()), "connect-atoms", fi.site(rets[0]), "the distance is taken only when both atoms exist; otherwise not connected", f"the distance is computed without establishing that {[k for k, v in have.items() if not v]} exist", K(fi, "atoms-present"))
     if len(sites) == 2:
         chk.expect(sites[0][1] == sites[1][1] == "Lt" and sites[0][2] == sites[1][2], "connect-agree", sites[1][0].where, "both models use the same threshold and strictness", "the two connectivity tests disagree in threshold or strictness", "connect:agree", found=[(s[1], s[2]) for s in sites])
     # ordering of residues before connectivity in the table-level model
     cr = repo.func(T2, "Structure.connected_residues")
     chk.note_function(cr)
+    if _ev(c15e.check_segments_eval):
+        return  # order, runs, minimal length and chain separation decided on the result; the pinned sort key below is the fallback
     srt = [c2 for c2 in astq.calls(cr.node, "sort")] + [c2 for c2 in ast.walk(cr.node) if isinstance(c2, ast.Call) and isinstance(c2.func, ast.Name) and c2.func.id == "sorted"]
     keys = [k.value for c2 in srt for k in c2.keywords if k.arg == "key"]
     if len(srt) != 1 or len(keys) != 1 or not isinstance(keys[0], ast.Lambda):
@@ -358,15 +434,19 @@ def run(chk) -> None:
     )
     chk.trusted = ["CPython ast", "pandas groupby/sort semantics", "wwPDB column table and IUPAC torsion table in spec/"]
     chk.assumptions = ["structures without alternate locations", "label and auth atom/residue names are equal in the quantified tables", "sign of the torsion is C18's business (magnitudes here)"]
-    chk.robust |= {"pdb-slices-agree", "pdb-slices-v2", "pdb-record-filter", "pdb-decode-v2", "int-parsing", "connect-threshold", "connect-agree", "connect-atoms", "chi-atoms", "chi-agree", "chi-dispatch", "chi-bases", "backbone-atoms", "pdb-columns", "group-columns", "connect-order", "null-markers-v2"}
+    chk.robust |= {"pdb-slices-agree", "pdb-slices-v2", "pdb-record-filter", "pdb-decode-v2", "int-parsing", "connect-threshold", "connect-agree", "connect-atoms", "chi-atoms", "chi-agree", "chi-dispatch", "chi-bases", "backbone-atoms", "pdb-columns", "group-columns", "connect-order", "null-markers-v2", "format-detection", "cif-table"}
     check_reader_agreement(chk)
     check_item_preference(chk)
     check_connectivity(chk)
     check_chi(chk)
     c08.check_pdb_columns(chk)
     c08.check_parse_pdb(chk)
+    c08.check_format_detection(chk)  # "whether the atoms were supplied as PDB or as mmCIF": the file reaches the reader of its format
     for rule, n in (("pdb-slices-agree", 9), ("pdb-slices-v2", 15), ("connect-threshold", 2), ("chi-atoms", 2), ("prefer-auth", 6)):
         chk.floor(rule, n)
+    from checks import w3cross
+
+    w3cross.check(chk, "C15", untouched=())  # state that survives a call: shared memo results, module-level containers, arguments
 
 
 MANIFEST_ENTRY = {
